@@ -65,7 +65,7 @@ def run(ctx, log):
     # a failing line that completed nothing leaves a retained session as it was (every kind of failure, at every depth)
     progcheck.run_failing_lines(ctx, log)
     # the same small programs at every size around the widths the implementation encodes things in (closed-form results)
-    progcheck.run_scale(ctx, log, ['constants', 'locals', 'args', 'statements', 'nesting', 'rtnest', 'objects', 'cyclic', 'alias', 'literal', 'temporaries', 'arity'])
+    progcheck.run_scale(ctx, log, ['constants', 'locals', 'args', 'statements', 'nesting', 'rtnest', 'objects', 'cyclic', 'alias', 'literal', 'temporaries', 'arity', 'names', 'text', 'csc'])
     progcheck.run_code_boundary(ctx, log)
     # every special value (NaN, infinities, signed zero, range ends, empty and nested things, null, functions) through every
     # operator, prefix operator, builtin and index position: a value or an error value, never a crash
